@@ -496,7 +496,12 @@ fn oracle_taproot(tx: &Transaction, n_in: usize, spent: &[TxOut], spent_one: Opt
 
 /// compare the library with the Rust oracle for one query; legacy out-of-range SINGLE is a recorded finding
 fn s_oracle(out: &mut Out, tx: &Transaction, ps: &[TxOut], genesis: &[u8; 32], q: &Q, got: &str) {
-    let line = || sighash_line(tx, ps, genesis, q);
+    s_oracle_named(out, tx, ps, genesis, q, got, None, &|| sighash_line(tx, ps, genesis, q))
+}
+
+/// `name`: one check name for every clause (the used-cache stream), `ctx`: the replay line
+fn s_oracle_named(out: &mut Out, tx: &Transaction, ps: &[TxOut], genesis: &[u8; 32], q: &Q, got: &str, name: Option<&str>, ctx: &dyn Fn() -> String) {
+    let line = || ctx();
     match q {
         Q::L { idx, ty, script } => {
             let exp = oracle_legacy(tx, *idx, script, ty.as_u32());
@@ -505,14 +510,14 @@ fn s_oracle(out: &mut Out, tx: &Transaction, ps: &[TxOut], genesis: &[u8; 32], q
                 let mut one = [0u8; 32];
                 one[0] = 1;
                 out.count("legacy.single_oob");
-                out.s("legacy_single_out_of_range_is_uint256_one", got == hx(&one), || format!("got {} (sha256d of the constant would be {}): {}", got, hx(&dsha(&one)), line()));
+                out.s(name.unwrap_or("legacy_single_out_of_range_is_uint256_one"), got == hx(&one), || format!("got {} (sha256d of the constant would be {}): {}", got, hx(&dsha(&one)), line()));
             } else {
-                out.s("legacy_equals_spec_oracle", exp.map(|d| hx(&d)).unwrap_or("panic".into()) == got, line);
+                out.s(name.unwrap_or("legacy_equals_spec_oracle"), exp.map(|d| hx(&d)).unwrap_or("panic".into()) == got, line);
             }
         }
         Q::S { idx, ty, script, value } => {
             let exp = oracle_segwit(tx, *idx, script, value, ty.as_u32());
-            out.s("segwit_equals_spec_oracle", exp.map(|d| hx(&d)).unwrap_or("panic".into()) == got, line);
+            out.s(name.unwrap_or("segwit_equals_spec_oracle"), exp.map(|d| hx(&d)).unwrap_or("panic".into()) == got, line);
         }
         Q::TG { .. } | Q::TK { .. } | Q::TS { .. } => {
             let (idx, ty, pv, annex, leaf) = match q {
@@ -527,7 +532,7 @@ fn s_oracle(out: &mut Out, tx: &Transaction, ps: &[TxOut], genesis: &[u8; 32], q
             }
             if let Some(a) = &annex {
                 if a.first() != Some(&0x50) {
-                    out.s("taproot_bad_annex_is_error", got == "err", line);
+                    out.s(name.unwrap_or("taproot_bad_annex_is_error"), got == "err", line);
                     return;
                 }
             }
@@ -541,8 +546,8 @@ fn s_oracle(out: &mut Out, tx: &Transaction, ps: &[TxOut], genesis: &[u8; 32], q
             let need_all = (ty as u8) & 0x80 == 0;
             let exp = if !size_ok || (need_all && pv != Pv::All) { None } else { oracle_taproot(tx, idx, spent, one, annex.as_deref(), leaf, ty as u8, genesis) };
             match exp {
-                Some(d) => out.s("taproot_equals_spec_oracle", hx(&d) == got, line),
-                None => out.s("taproot_spec_failure_is_error", got == "err" || got == "errPrevoutKind", line),
+                Some(d) => out.s(name.unwrap_or("taproot_equals_spec_oracle"), hx(&d) == got, line),
+                None => out.s(name.unwrap_or("taproot_spec_failure_is_error"), got == "err" || got == "errPrevoutKind", line),
             }
         }
         Q::W { .. } => {}
@@ -908,6 +913,100 @@ fn vectors(out: &mut Out) {
     }
 }
 
+// ------------------------------------------------------------------ used-cache stream
+
+fn history_line(tx: &Transaction, ps: &[TxOut], genesis: &[u8; 32], qs: &[Q]) -> String {
+    format!("cacheseq {} {} {} {}", hex(&serialize(tx)), prevouts_str(ps), hx(genesis), qs.iter().map(q_str).collect::<Vec<_>>().join(";"))
+}
+
+/// a query likely to leave something in the cache that a later query reads
+fn gen_prefix_query(rng: &mut R, tx: &Transaction) -> Q {
+    let nin = tx.input.len();
+    let idx = if nin > 0 { rng.gen_range(0..nin) } else { 0 };
+    let acp = [SchnorrSighashType::AllPlusAnyoneCanPay, SchnorrSighashType::NonePlusAnyoneCanPay, SchnorrSighashType::SinglePlusAnyoneCanPay];
+    match rng.gen_range(0..12) {
+        // ANYONECANPAY with only the signed input's spent output, ALL|ANYONECANPAY most often
+        0 | 1 | 2 | 3 => Q::TK { idx, ty: SchnorrSighashType::AllPlusAnyoneCanPay, pv: Pv::One(idx) },
+        4 => Q::TG { idx, ty: acp[rng.gen_range(0..3)], pv: Pv::One(idx), annex: gen_annex(rng).filter(|a| a.first() == Some(&0x50)), leaf: gen_leaf(rng, true), codesep: rng.gen() },
+        5 => Q::TK { idx, ty: acp[rng.gen_range(0..3)], pv: Pv::All },
+        6 => Q::TK { idx, ty: SCHNORR_TYPES[rng.gen_range(0..4)], pv: Pv::All },
+        7 => Q::L { idx, ty: ECDSA_TYPES[rng.gen_range(0..6)], script: gen::script(rng) },
+        8 | 9 => Q::S { idx, ty: ECDSA_TYPES[rng.gen_range(0..6)], script: gen::script(rng), value: gen::value(rng) },
+        _ => gen_query(rng, tx),
+    }
+}
+
+/// the query under test: mostly one that needs all spent outputs
+fn gen_final_query(rng: &mut R, tx: &Transaction) -> Q {
+    let nin = tx.input.len();
+    let idx = if nin > 0 { rng.gen_range(0..nin) } else { 0 };
+    match rng.gen_range(0..10) {
+        0 | 1 | 2 | 3 => Q::TK { idx, ty: SCHNORR_TYPES[rng.gen_range(0..4)], pv: Pv::All },
+        4 | 5 => Q::TG { idx, ty: SCHNORR_TYPES[rng.gen_range(0..7)], pv: Pv::All, annex: gen_annex(rng), leaf: gen_leaf(rng, true), codesep: rng.gen() },
+        6 => Q::TS { idx, ty: SCHNORR_TYPES[rng.gen_range(0..7)], pv: Pv::All, leaf: gen_leaf(rng, false) },
+        _ => gen_query(rng, tx),
+    }
+}
+
+/// C03 on a cache that has already served other queries: every digest of the history — in
+/// particular the last one — must be the digest of the specification; K: the whole history on one
+/// cache (`cacheseq`, same language as C13) against the model's cache state machine
+fn used_cache_history(out: &mut Out, tx: &Transaction, ps: &[TxOut], genesis: &[u8; 32], qs: &[Q]) {
+    let g = BlockHash::from_byte_array(*genesis);
+    let mut t = tx.clone();
+    let got: Vec<String> = {
+        let mut cache = SighashCache::new(&mut t);
+        qs.iter().map(|q| run_q(&mut cache, ps, g, q)).collect()
+    };
+    out.k(history_line(tx, ps, genesis, qs), format!("ok {}", got.join("|")));
+    for (i, (q, r)) in qs.iter().zip(got.iter()).enumerate() {
+        let ctx = || format!("op #{} ({}) got {} in history: {}", i, q_str(q), r, history_line(tx, ps, genesis, qs));
+        s_oracle_named(out, tx, ps, genesis, q, r, Some("digest_equals_spec_on_used_cache"), &ctx);
+        // and equals what a fresh cache says
+        let f = fresh(tx, ps, g, q);
+        out.s("used_cache_equals_fresh_cache", *r == f, || format!("fresh {} ; {}", f, ctx()));
+    }
+    out.count(&format!("used_cache.history.len{}", qs.len()));
+}
+
+fn used_cache_stream(out: &mut Out, rng: &mut R, n: usize) {
+    // regression (seeded change C03-w2m1): ALL|ANYONECANPAY with One first, then every type needing All
+    {
+        let mut tx = gen::tx_wide(rng, 3, 2);
+        tx.input[1] = gen::txin(rng, gen::InKind::Issuance, true);
+        tx.output[1] = gen::txout(rng, true);
+        let ps: Vec<TxOut> = (0..3).map(|_| gen::txout(rng, false)).collect();
+        let genesis = gen::arr32(rng);
+        for first in [SchnorrSighashType::AllPlusAnyoneCanPay, SchnorrSighashType::NonePlusAnyoneCanPay, SchnorrSighashType::SinglePlusAnyoneCanPay] {
+            for later in [SchnorrSighashType::Default, SchnorrSighashType::All, SchnorrSighashType::None, SchnorrSighashType::Single, SchnorrSighashType::AllPlusAnyoneCanPay] {
+                for idx in 0..2 {
+                    let qs = vec![Q::TK { idx, ty: first, pv: Pv::One(idx) }, Q::TK { idx: 1 - idx, ty: later, pv: Pv::All }];
+                    used_cache_history(out, &tx, &ps, &genesis, &qs);
+                }
+            }
+        }
+        let qs = vec![
+            Q::S { idx: 0, ty: ECDSA_TYPES[0], script: gen::script(rng), value: gen::value(rng) },
+            Q::L { idx: 1, ty: ECDSA_TYPES[2], script: gen::script(rng) },
+            Q::TK { idx: 2, ty: SchnorrSighashType::AllPlusAnyoneCanPay, pv: Pv::One(2) },
+            Q::TG { idx: 0, ty: SchnorrSighashType::Default, pv: Pv::All, annex: Some(vec![0x50, 1]), leaf: Leaf::Hash([5u8; 32]), codesep: 9 },
+        ];
+        used_cache_history(out, &tx, &ps, &genesis, &qs);
+    }
+    for _ in 0..n {
+        let (tx, ps) = loop {
+            let (tx, ps) = scenario_tx(rng);
+            // the cache matters most with several inputs
+            if tx.input.len() >= 2 || rng.gen_range(0..5) == 0 { break (tx, ps); }
+        };
+        let genesis = gen::arr32(rng);
+        let np = rng.gen_range(1..4);
+        let mut qs: Vec<Q> = (0..np).map(|_| gen_prefix_query(rng, &tx)).collect();
+        qs.push(gen_final_query(rng, &tx));
+        used_cache_history(out, &tx, &ps, &genesis, &qs);
+    }
+}
+
 // ------------------------------------------------------------------ run
 
 fn one_scenario(out: &mut Out, rng: &mut R, tx: &Transaction, ps: &[TxOut], nq: usize) {
@@ -999,4 +1098,5 @@ pub fn run(rng: &mut R, out: &mut Out) {
         let (tx, ps) = scenario_tx(rng);
         modification_tables(out, rng, &tx, &ps);
     }
+    used_cache_stream(out, rng, if thorough { 5000 } else { 350 });
 }
